@@ -140,11 +140,9 @@ func c03loop(p *Program, r *Report, rule string) {
 	// rejects for reserved bits and unknown opcodes are answered with a 1002 close
 	p.forAllPaths(r, rule+".1002", fn, "rsv/opcode rejections send 1002", Opts{Inline: p.inlineSet("Conn.readRSV1Illegal", "Conn.flate")},
 		"every rejection for reserved bits or an unknown opcode calls writeError(StatusProtocolError)", func(pa *Path) (bool, string) {
-			for _, e := range pa.Events {
-				if isCall(e, "Conn.writeError") {
-					if i, ok := avInt(e.Args[1]); !ok || i != 1002 {
-						return false, "writeError with code " + argKey(e, 1)
-					}
+			for _, e := range pa.Calls("Conn.writeError") {
+				if i, ok := avInt(e.Args[1]); !ok || i != 1002 {
+					return false, "writeError with code " + argKey(e, 1)
 				}
 			}
 			return true, ""
